@@ -195,6 +195,8 @@ def render_lp(tree, r):
             s += t["var"]
             cnt += 1
             if cnt % r.randint(2, 5) == 0 and k + 1 < len(terms):
+                if r.random() < .15:
+                    s += osp() + comment()          # comment directly after a name
                 s += "\n" + sp()
                 if r.random() < .2:
                     s += comment() + "\n" + sp()
@@ -204,7 +206,7 @@ def render_lp(tree, r):
     out.append(r.choice(["Subject To", "SUBJECT TO", "subject to", "ST", "st", "St"]) + "\n")
     for rw in tree["rows"]:
         out.append(sp() + (rw["name"] + ":" if rw["name"] else "") + expr(rw["terms"]) + osp() + rw["op"] + osp() + ("-" if rw["rneg"] else "") + "".join(rw["rhs"])
-                   + (sp() + comment() if r.random() < .2 else "") + "\n")
+                   + (osp() + comment() if r.random() < .2 else "") + "\n")
         if r.random() < .15:
             out.append(comment() + "\n")
     if tree["bounds"]:
